@@ -89,23 +89,28 @@ def compiled_fold_rule(repo: Repo, rep: Report, rid: str, tier: str) -> bool:
 
 def shape_rule(repo: Repo, rep: Report, tier: str, fn: Callable[..., Any], rid: str, *args: Any, **kw: Any) -> Any:
     """Run a rule on the shape of the source generator; where the compiled-reader fold decides, only as an advisory."""
-    if not fold_decides(repo, tier):
+    return fallback_rule(repo, rep, fold_decides(repo, tier), "the compiled-reader fold", fn, rid, *args, **kw)
+
+
+def fallback_rule(repo: Repo, rep: Report, decided: bool, by: str, fn: Callable[..., Any], rid: str, *args: Any, **kw: Any) -> Any:
+    """Run a rule on the shape of a generator; where a fold of the generator's outcome decides, only as an advisory."""
+    if not decided:
         return fn(repo, rep, rid, *args, **kw)
     scratch = Report(rep.prop, rep.tier)
     result = None
     try:
         result = fn(repo, scratch, rid, *args, **kw)
     except AnalysisError as e:
-        rep.notes.append(f"advisory {rid} (shape of the source generator; the compiled-reader fold decides): anchor not found: {e}")
+        rep.notes.append(f"advisory {rid} (shape of the generator; {by} decides): anchor not found: {e}")
     except Exception as e:  # noqa: BLE001 - a shape rule that cannot cope with a reorganised generator is not the deciding one here
-        rep.notes.append(f"advisory {rid} (shape of the source generator; the compiled-reader fold decides): rule not applicable to this shape ({type(e).__name__})")
-    desc = scratch.rules_desc.get(rid, "rule on the shape of the source generator")
-    rep.rule(rid, desc + " [fallback: applies when the compiled-reader fold cannot interpret the generator; otherwise advisory]")
+        rep.notes.append(f"advisory {rid} (shape of the generator; {by} decides): rule not applicable to this shape ({type(e).__name__})")
+    desc = scratch.rules_desc.get(rid, "rule on the shape of the generator")
+    rep.rule(rid, desc + f" [fallback: applies when {by} cannot interpret the generator; otherwise advisory]")
     fails = [i for i in scratch.items if not i.ok and i.rule == rid]
     for i in fails[:3]:
         rep.notes.append(f"advisory {rid}: {i.construct}: {i.detail[:200]}")
     n = sum(1 for i in scratch.items if i.rule == rid)
-    rep.ok(rid, f"compiler.py:shape:{rid.split('.')[1]}", f"the compiled-reader fold decides ({n} shape obligations looked at, {len(fails)} advisory remarks)", "", nontrivial=False)
+    rep.ok(rid, f"shape:{rid.split('.')[1]}", f"{by} decides ({n} shape obligations looked at, {len(fails)} advisory remarks)", "", nontrivial=False)
     for k_, v in scratch.info.items():
         rep.info.setdefault(k_, v)
     return result
